@@ -201,8 +201,16 @@ fn form6<H: Shape, T: Shape>(len: usize) -> Vec<u64> {
     let a = unsafe { <Arc<T> as RefCnt>::from_ptr(ip) };
     let rt = (a.heap_ptr() as usize == heap && Arc::count(&a) == 1) as u64;
     drop(a);
+    // the glue in use: a value held by an ArcSwapAny and by one more handle; borrowing guards (load) and an owning
+    // load (load_full) come and go, then the ArcSwapAny itself.  [count once they are gone, count once it is gone]
+    let (c1, c2) = {
+        let a = Arc::new(T::make(5));
+        let keep = a.clone();
+        let s = arc_swap::ArcSwapAny::<Arc<T>>::new(a);
+        swap_use(s, || Arc::count(&keep) as u64)
+    };
     if T::SIZE == 0 {
-        return vec![ST_OK, (asp - blk.0) as u64, (ip as usize - blk.0) as u64, rt, 0, 0, 1];
+        return vec![ST_OK, (asp - blk.0) as u64, (ip as usize - blk.0) as u64, rt, 0, 0, 1, c1, c2, 2, 1];
     }
     let v: Vec<T> = (0..len).map(|i| T::make(i as u8)).collect();
     let (t, evs) = recorded(|| ThinArc::from_header_and_slice(H::make(9), &v));
@@ -213,7 +221,62 @@ fn form6<H: Shape, T: Shape>(len: usize) -> Vec<u64> {
     let t = unsafe { <ThinArc<H, T> as RefCnt>::from_ptr(tip) };
     let trt = (t.heap_ptr() as usize == theap && ThinArc::strong_count(&t) == 1) as u64;
     drop(t);
-    vec![ST_OK, (asp - blk.0) as u64, (ip as usize - blk.0) as u64, rt, (tasp - tb) as u64, (tip as usize - tb) as u64, trt]
+    let (tc1, tc2) = {
+        let t = ThinArc::from_header_and_slice(H::make(9), &v);
+        let keep = t.clone();
+        let s = arc_swap::ArcSwapAny::<ThinArc<H, T>>::new(t);
+        swap_use(s, || ThinArc::strong_count(&keep) as u64)
+    };
+    vec![ST_OK, (asp - blk.0) as u64, (ip as usize - blk.0) as u64, rt, (tasp - tb) as u64, (tip as usize - tb) as u64, trt, c1, c2, tc1, tc2]
+}
+
+/// one guard at a time, the count read after each step; on the first wrong count everything is leaked (the block may
+/// already be gone) and that count is the answer
+#[cfg(feature = "cfg_all")]
+fn swap_use<R: arc_swap::RefCnt>(s: arc_swap::ArcSwapAny<R>, count: impl Fn() -> u64) -> (u64, u64) {
+    let mut wrong: Option<u64> = None;
+    'steps: {
+        if count() != 2 {
+            wrong = Some(count());
+            break 'steps;
+        }
+        let g1 = s.load();
+        drop(g1);
+        if count() != 2 {
+            wrong = Some(count());
+            break 'steps;
+        }
+        let g1 = s.load();
+        let g2 = s.load();
+        drop(g1);
+        if count() != 2 {
+            wrong = Some(count());
+            std::mem::forget(g2);
+            break 'steps;
+        }
+        drop(g2);
+        if count() != 2 {
+            wrong = Some(count());
+            break 'steps;
+        }
+        let full = s.load_full();
+        if count() != 3 {
+            wrong = Some(count());
+            std::mem::forget(full);
+            break 'steps;
+        }
+        drop(full);
+        if count() != 2 {
+            wrong = Some(count());
+        }
+    }
+    if let Some(c) = wrong {
+        std::mem::forget(s);
+        return (c, 0);
+    }
+    // the ArcSwapAny gives its handle up
+    drop(s.into_inner());
+    (2, count())
 }
 
 #[cfg(not(feature = "cfg_all"))]
@@ -231,7 +294,7 @@ fn form6<H: Shape, T: Shape>(len: usize) -> Vec<u64> {
     let rt = (a.heap_ptr() as usize == heap && Arc::count(&a) == 1) as u64;
     drop(a);
     if T::SIZE == 0 {
-        return vec![ST_OK, (asp - blk.0) as u64, (ip as usize - blk.0) as u64, rt, 0, 0, 1];
+        return vec![ST_OK, (asp - blk.0) as u64, (ip as usize - blk.0) as u64, rt, 0, 0, 1, 2, 1, 2, 1];
     }
     let v: Vec<T> = (0..len).map(|i| T::make(i as u8)).collect();
     let (t, evs) = recorded(|| ThinArc::from_header_and_slice(H::make(9), &v));
@@ -242,7 +305,8 @@ fn form6<H: Shape, T: Shape>(len: usize) -> Vec<u64> {
     let t = unsafe { ThinArc::<H, T>::from_raw(tip) };
     let trt = (t.heap_ptr() as usize == theap && ThinArc::strong_count(&t) == 1) as u64;
     drop(t);
-    vec![ST_OK, (asp - blk.0) as u64, (ip as usize - blk.0) as u64, rt, (tasp - tb) as u64, (tip as usize - tb) as u64, trt]
+    // (the counts an ArcSwapAny would leave behind: 2 with its handle, 1 without)
+    vec![ST_OK, (asp - blk.0) as u64, (ip as usize - blk.0) as u64, rt, (tasp - tb) as u64, (tip as usize - tb) as u64, trt, 2, 1, 2, 1]
 }
 
 fn run<H: Shape, T: Shape>(form: u64, len: usize) -> Vec<u64> {
